@@ -577,6 +577,38 @@ pub fn run(ctx: &Ctx) -> Finish {
         }
     });
     let _ = n_states_1;
+    // ---- long functions (31..100 terms): fixed part = every other id / the first half / only the last id /
+    // all ids / none, and the two-step split (every other id, then the rest)
+    let long = super::c01::long_functions();
+    ctx.par(long.len(), |l, i| {
+        let (f, ids) = &long[i];
+        l.states += 1;
+        let st: Vec<(u64, f64)> = ids.iter().map(|id| (*id, [-1.0, 0.5, 2.0, 0.0, 1.0][((id / 3) % 5) as usize])).collect();
+        let alt: Vec<u64> = ids.iter().step_by(2).cloned().collect();
+        let rest: Vec<u64> = ids.iter().skip(1).step_by(2).cloned().collect();
+        let firsts: Vec<Vec<u64>> = vec![alt.clone(), ids[..ids.len() / 2].to_vec(), vec![*ids.last().unwrap()], ids.clone(), vec![]];
+        for first in firsts {
+            check_case(l, &Case::Fun { f: f.clone(), state: st.clone(), first, second: vec![] });
+        }
+        check_case(l, &Case::Fun { f: f.clone(), state: st.clone(), first: alt, second: rest });
+    });
+    // ---- id extremes: the small messages under the renaming 1 -> 0, 2 -> u64::MAX, 7 -> 2^32 + 3
+    let e = (1u64 << 32) + 3;
+    let ext_ids = [0u64, u64::MAX, e];
+    let ext: Vec<FnRep> = super::c01::functions(Tier::Quick)
+        .into_iter()
+        .filter(|f| f.n_terms() <= 2)
+        .map(|f| super::c01::rename(&f, &|i| match i { 1 => 0, 2 => u64::MAX, _ => e }))
+        .collect();
+    let ext_subs = subsets(&ext_ids);
+    ctx.par(ext.len(), |l, i| {
+        l.states += 1;
+        for st in [vec![(0u64, 0.5), (u64::MAX, -1.0), (e, 2.0)], vec![(0u64, 2.0), (u64::MAX, 2.0), (e, 0.0)]] {
+            for first in &ext_subs {
+                check_case(l, &Case::Fun { f: ext[i].clone(), state: st.clone(), first: first.clone(), second: vec![] });
+            }
+        }
+    });
     // ---- constraint wrappers
     let small = family_small();
     let cfs: Vec<Option<FnRep>> = std::iter::once(None).chain(small.into_iter().map(Some)).collect();
@@ -621,7 +653,7 @@ pub fn run(ctx: &Ctx) -> Finish {
     });
     Finish {
         level: "model_checking",
-        rule: "functions: every message of the C01 representation alphabet x states over the value grid x every split fixed/remaining (2^3) x every ordered two-step split (3^3 assignments); constraints and removed constraints likewise; instances: product family (objective x active lists x removed x dependency none/single/chain) x in-bound states x all 2^4 splits x ordered two-step splits, both orders and at-once compared; non-trivial = non-zero function / non-empty fixed part".into(),
+        rule: "functions: every message of the C01 representation alphabet x states over the value grid x every split fixed/remaining (2^3) x every ordered two-step split (3^3 assignments); long functions (31..100 terms) under five fixed parts and a two-step split; small messages with ids 0, 2^32+3, u64::MAX; constraints and removed constraints likewise; instances: product family (objective x active lists x removed x dependency none/single/chain) x in-bound states x all 2^4 splits x ordered two-step splits, both orders and at-once compared; non-trivial = non-zero function / non-empty fixed part".into(),
         bounds: json!({"ids": [1,2,7], "values": values, "function_terms_max": 3, "instance_vars": [1,2,7,8], "two_step_splits": splits2.len()}),
         exhaustive: true,
     }
